@@ -553,6 +553,7 @@ def req_C07(r, tier):
     out = []
     us = [("lo%d" % i, u) for i, u in enumerate(low_order_u())] + [("9", 9), ("2^255-1", M255), ("2^256-1", (1 << 256) - 1), ("2^255+9", (1 << 255) + 9),
                                                                ("p+9", P + 9), ("2", 2), ("twist2", 2)]
+    us += [(l_ + "|b255", u | (1 << 255)) for l_, u in list(us) if u < (1 << 255)]
     for i in range(sz(tier, 30, 500)):
         us.append(("rand", r.below(1 << 256)))
     ks = [("0", 0), ("1", 1), ("8", 8), ("ff", (1 << 256) - 1), ("l", L), ("8l", 8 * L % (1 << 256)), ("clamped_l_mult", 0)]
@@ -685,14 +686,20 @@ def req_C09(r, tier):
     tor = torsion_encodings()
     seeds = [r.bytes(32) for _ in range(sz(tier, 6, 60))]
     for sd in seeds:
+      for mode in ("pure", "ph"):
+        ctx = None if mode == "pure" else r.choice([b"", b"ctx", bytes(255)])
         a, _ = ed_expand(sd)
         A = smul(a % L, B)
         pk = compress(A)
         m = r.bytes(r.below(80))
-        sig = ed_sign(sd, m)
+        sig = ed_sign(sd, m, ctx)
         Rb, S = sig[:32], le(sig[32:])
-        V = lambda lab, pkb, mb, sg: [("eds.verify:" + lab, "eds.verify %s %s %s" % (pkb.hex(), hx(mb), sg.hex())),
-                                      ("eds.verify_strict:" + lab, "eds.verify_strict %s %s %s" % (pkb.hex(), hx(mb), sg.hex()))]
+        if mode == "pure":
+            V = lambda lab, pkb, mb, sg: [("eds.verify:" + lab, "eds.verify %s %s %s" % (pkb.hex(), hx(mb), sg.hex())),
+                                          ("eds.verify_strict:" + lab, "eds.verify_strict %s %s %s" % (pkb.hex(), hx(mb), sg.hex()))]
+        else:
+            V = lambda lab, pkb, mb, sg: [("eds.verify_ph:" + lab, "eds.verify_ph %s %s %s %s" % (pkb.hex(), hx(mb), hx(ctx), sg.hex())),
+                                          ("eds.verify_ph_strict:" + lab, "eds.verify_ph_strict %s %s %s %s" % (pkb.hex(), hx(mb), hx(ctx), sg.hex()))]
         out += V("honest", pk, m, sig)
         # S variants
         for lab, S2 in (("S+l", S + L), ("S+2l", S + 2 * L), ("S+8l", S + 8 * L), ("S=l-1", L - 1), ("S=l", L), ("S=0", 0), ("S|bit255", S | (1 << 255)),
@@ -703,33 +710,38 @@ def req_C09(r, tier):
         for lab, pos in (("flipR", r.below(32)), ("flipS", 32 + r.below(32))):
             b = bytearray(sig); b[pos] ^= 1 << r.below(8)
             out += V(lab, pk, m, bytes(b))
-        # R non-canonical / torsion tweaks: R' = R + T -> need S adjust? just send (expected reject unless equation holds)
         Rp = decompress(Rb)
         for lt, tb in tor:
             T = decompress(tb)
             out += V("R+T:" + lt, pk, m, compress(add(Rp, T)) + sig[32:])
-            # key with torsion component: A' = A + T ; craft signature valid for cofactored but maybe not cofactorless
             Ap = compress(add(A, T))
             out += V("A+T:" + lt, Ap, m, sig)
-            # small order key with S=0-style signatures:  R = T', A = T, S = 0 -> equation R = -kA
-            k = ed_challenge(tb, tb, m)
+            k = ed_challenge(tb, tb, m, ctx)
             out += V("allsmall:" + lt, tb, m, tb + tole(0))
             Rs = compress(neg(smul(k, T)))
             out += V("smallA_fitR:" + lt, tb, m, Rs + tole(0))
-            k2 = ed_challenge(Rs, tb, m)
+            k2 = ed_challenge(Rs, tb, m, ctx)
             Rs2 = compress(neg(smul(k2, T)))
             out += V("smallA_fitR2:" + lt, tb, m, Rs2 + tole(0))
-        # R = identity encodings with S = k*a
-        for lt, tb in tor[:3]:
-            k = ed_challenge(tb, pk, m)
-            out += V("R=small,S=ka:" + lt, pk, m, tb + tole(k * a % L))
-        # prehash variants
-        for c in (b"", b"ctx", bytes(255)):
-            sg = ed_sign(sd, m, c)
-            out.append(("eds.verify_ph:honest", "eds.verify_ph %s %s %s %s" % (pk.hex(), hx(m), hx(c), sg.hex())))
-            out.append(("eds.verify_ph_strict:honest", "eds.verify_ph_strict %s %s %s %s" % (pk.hex(), hx(m), hx(c), sg.hex())))
-            out.append(("eds.verify_ph:S+l", "eds.verify_ph %s %s %s %s" % (pk.hex(), hx(m), hx(c), (sg[:32] + tole(le(sg[32:]) + L)).hex())))
-            out.append(("eds.verify_ph:none_vs_empty", "eds.verify_ph %s %s ~ %s" % (pk.hex(), hx(m), sg.hex())))
+            # full-order key, small-order R, S = k*a : the group equation holds, only the strict rule on R rejects
+            k3 = ed_challenge(tb, pk, m, ctx)
+            out += V("R=small,S=ka:" + lt, pk, m, tb + tole(k3 * a % L))
+            # mixed-order key A' = A + T with R = -k T' + ... : search a message for which [S]B - [k]A' = R small
+            for tries in range(12):
+                m2 = m + bytes([tries])
+                Ap_pt = add(A, T)
+                Apb = compress(Ap_pt)
+                for lr, rb in tor[:8:2]:
+                    Rt = decompress(rb)
+                    kk = ed_challenge(rb, Apb, m2, ctx)
+                    Sx = kk * a % L
+                    # [Sx]B - [kk](A+T) = -[kk]T ; accept iff equals Rt
+                    if neg(smul(kk, T)) == Rt:
+                        out += V("mixedA_smallR_valid:" + lt, Apb, m2, rb + tole(Sx))
+        if mode == "ph":
+            out.append(("eds.verify_ph:none_vs_empty", "eds.verify_ph %s %s ~ %s" % (pk.hex(), hx(m), sig.hex())))
+            out.append(("eds.verify_ph:wrongctx", "eds.verify_ph %s %s %s %s" % (pk.hex(), hx(m), hx(b"zz"), sig.hex())))
+            out.append(("eds.verify:ph_sig_as_pure", "eds.verify %s %s %s" % (pk.hex(), hx(m), sig.hex())))
     # vk decoding
     for lt, tb in tor:
         out.append(("eds.vk:" + lt, "eds.vk " + tb.hex()))
